@@ -220,14 +220,18 @@ def wrappers_of(c, chosen):
                 d = (over or {}).get(f["name"], f.get("default")) or {"t": "none"}
                 w["fields"].append({"name": f["name"], "dest": fd, "dests": [fd], "is_subgroup": False, "init": True,
                                     "dflt": to_driver(d), "conv": conv_of(k)})
+        # `wrapper._children` as `_is_at_default` reads them: nested members in field order, then the chosen subgroups
+        kids = []
         for cn, fd, opt in later:
-            walk(cn, fd, level + 1, True, None, opt, suppress)
+            kids.append(walk(cn, fd, level + 1, True, None, opt, suppress))
         for f in spec["fields"]:
             if f["ty"] == "subgroup":
                 fd = dest + "." + f["name"]
                 key = chosen.get(fd, f["default_key"])
                 if key in f["choices"]:
-                    walk(f["choices"][key], fd, level + 1, True, None, False)
+                    kids.append(walk(f["choices"][key], fd, level + 1, True, None, False))
+        w["children"] = [{"name": k["dest"].rsplit(".", 1)[1], "fields": k["fields"], "children": k["children"]} for k in kids]
+        return w
 
     for i, r in enumerate(c["regs"]):
         over = dict(r.get("default") or {})
@@ -934,6 +938,12 @@ def gen_forest(rng, allow_subgroup=True):
             fields.append({"name": "inner", "ty": "dc", "cls": ch["name"]})
         if 0.25 < r < 0.5:
             oc = {"name": f"Opt{ri}", "fields": leafs(rng.randint(1, 2), required_ok=False)}
+            if rng.random() < 0.45:
+                # a member nested inside the Optional member (itself Optional or built by a default factory): an option
+                # for one of ITS leaves has to create the Optional member too (`_is_at_default`, fixes 3f531df / f635f07)
+                gd = {"name": f"Below{ri}", "fields": leafs(rng.randint(1, 2), required_ok=False)}
+                classes.append(gd)
+                oc["fields"].append({"name": "below", "ty": rng.choice(["dc", "optdc"]), "cls": gd["name"]})
             classes.append(oc)
             fields.append({"name": "maybe", "ty": "optdc", "cls": oc["name"]})
         if allow_subgroup and ri == 0 and rng.random() < 0.25:
